@@ -3,6 +3,7 @@ package props
 import (
 	"bytes"
 	"fmt"
+	"sort"
 	"strings"
 
 	"verif/core"
@@ -124,6 +125,23 @@ func byteClass(b byte, special string) string {
 
 // cutProbes records where the executed delivery sequence cut the input.
 func cutProbes(ctx *core.Ctx, f *fmts.Format, input []byte, seq []int) {
+	pairs := map[[2]byte]int64{}
+	defer func() {
+		keys := make([][2]byte, 0, len(pairs))
+		for k := range pairs {
+			keys = append(keys, k)
+		}
+		sort.Slice(keys, func(i, j int) bool { return keys[i][0] < keys[j][0] || keys[i][0] == keys[j][0] && keys[i][1] < keys[j][1] })
+		for _, k := range keys {
+			ctx.Stats.Add("cutpair/"+f.Name+"/"+byteClass(k[0], f.Special)+"|"+byteClass(k[1], f.Special), pairs[k])
+		}
+	}()
+	norm := func(b byte) byte {
+		if b == '\r' || b == '\n' || strings.IndexByte(f.Special, b) >= 0 {
+			return b
+		}
+		return 'x'
+	}
 	pos := 0
 	line := 0
 	lineAt := func(p int) int { return bytes.Count(input[:p], []byte("\n")) }
@@ -143,7 +161,7 @@ func cutProbes(ctx *core.Ctx, f *fmts.Format, input []byte, seq []int) {
 			continue
 		}
 		a, b := input[pos-1], input[pos]
-		ctx.Stats.Inc("cutpair/" + f.Name + "/" + byteClass(a, f.Special) + "|" + byteClass(b, f.Special))
+		pairs[[2]byte{norm(a), norm(b)}]++
 		if a == '\r' && b == '\n' {
 			ctx.Stats.Inc("probe/cut_between_cr_lf/" + f.Name)
 		}
@@ -186,10 +204,10 @@ func RunC06(ctx *core.Ctx, r *core.Rng) {
 		sz = fmts.Small
 	case x < 80:
 		sz = fmts.Multi
-	case x < 96:
+	case x < 96 || (ctx.Tier != "thorough" && x < 99):
 		sz = fmts.Medium
 	default:
-		sz = fmts.Large
+		sz = fmts.Large // 1% of quick runs, 4% of thorough runs: an execution costs up to a second
 	}
 	kind := "wellformed"
 	switch x := r.Intn(100); {
@@ -244,14 +262,16 @@ func RunC06(ctx *core.Ctx, r *core.Rng) {
 	runSched := func(plan sim.Plan, probe bool, tag string) {
 		c := &Case{Clause: "C06.schedule", Format: f.Name, Input: input, Plan: &plan}
 		st := sim.NewStream(input, plan)
-		st.KeepSeq = probe
+		st.KeepSeq = probe && len(input) <= 8192 // where the cuts fell is only analysed for inputs up to 8 KiB
 		out := sim.Consume(f.Reader(st), sim.ConsumerPlan{Style: sim.Direct, StopAt: -1}, len(ref)+sim.LiveB)
 		ctx.Eval()
 		v := diffVerdict("C06.schedule", f.Name, ref, out)
 		if probe {
-			ctx.Seen(inHash ^ hashSeq(st.Seq))
-			cutProbes(ctx, f, input, st.Seq)
-			ctx.EvU(hashSeq(st.Seq), uint64(len(out.Items)))
+			ctx.Seen(inHash ^ st.SeqHash)
+			if st.KeepSeq {
+				cutProbes(ctx, f, input, st.Seq)
+			}
+			ctx.EvU(st.SeqHash, uint64(len(out.Items)))
 		}
 		if st.EOFData {
 			ctx.Stats.Inc("fault_fired/eof_with_data")
@@ -319,6 +339,9 @@ func RunC06(ctx *core.Ctx, r *core.Rng) {
 		if i >= len(planStyles) {
 			style = core.Pick(r, planStyles)
 		}
+		if len(input) > 50000 && (style == "one" || style == "uniform") && !(ctx.Tier == "thorough" && r.Chance(0.2)) {
+			style = "bigbuf" // hundreds of thousands of tiny reads per execution: thorough tier only, and rarely
+		}
 		runSched(genPlan(r, style, input, f.Special), true, style)
 	}
 
@@ -333,15 +356,20 @@ func RunC06(ctx *core.Ctx, r *core.Rng) {
 				plan := sim.Plan{}
 				if i > 0 {
 					style := core.Pick(r, []string{"hunter", "uniform", "one"})
+					if len(crlf) > 50000 {
+						style = core.Pick(r, []string{"hunter", "bigbuf", "geometric"})
+					}
 					plan = genPlan(r, style, crlf, f.Special)
 				}
 				c := &Case{Clause: "C06.crlf", Format: f.Name, Input: lf, Plan: &plan}
 				st := sim.NewStream(crlf, plan)
-				st.KeepSeq = true
+				st.KeepSeq = len(crlf) <= 8192
 				out := sim.Consume(f.Reader(st), sim.ConsumerPlan{Style: sim.Direct, StopAt: -1}, len(lref)+sim.LiveB)
 				ctx.Eval()
-				cutProbes(ctx, f, crlf, st.Seq)
-				ctx.Seen(inHash ^ hashSeq(st.Seq) ^ 0xc)
+				if st.KeepSeq {
+					cutProbes(ctx, f, crlf, st.Seq)
+				}
+				ctx.Seen(inHash ^ st.SeqHash ^ 0xc)
 				ctx.Stats.Inc("crlf_cases/" + f.Name)
 				if v := diffVerdict("C06.crlf", f.Name, lref, out); v != nil {
 					ctx.EvS(v.Key)
